@@ -1,20 +1,28 @@
 """C07 — amplitude burst labels follow the dual-threshold rule (pipeline model, reference detector mask)."""
 from harness import pipeline
-from harness.pipeline import COQ_HEADER, COQ_RUNNER, COQ_TYPES, SHARD, coq_case, kind_of, TRUST
+from harness.pipeline import COQ_HEADER, COQ_RUNNER, COQ_TYPES, SHARD, coq_case, kind_of, extra_evidence, TRUST
 
 PROP = 'C07'
 PROPS_FILE = 'Props/C07.v'
-RULE = ('compute_features(burst_method="amp") on bursty / mixed generated signals, both centrings, amp_threshes grid, '
-        'burst_fraction_threshold in {0,.25,.5,.75,1}, min_n_cycles supplied via thresholds / burst options / both / neither '
-        '(and min_burst_duration); reference mask from neurodsp with the resolved count; a second call re-using the same '
-        'option dict objects; non-trivial = >= 3 rows and a label of each value')
+RULE = ('compute_features(burst_method="amp") on generated signals (sparse / bursty / mixed kinds and scaled, dc-offset, '
+        'chirp, quantised ones), both centrings, amp_threshes grid, burst_fraction_threshold in {0,.25,.5,.75,1} or (30 %, when such a row exists) '
+        'the burst_fraction of a partially bursting row of a first run and its neighbours one ulp below / above, '
+        'min_n_cycles supplied via thresholds / burst options / both / neither (and min_burst_duration, and the '
+        'detector\'s own filter_kwargs n_cycles / n_seconds); option dictionaries in a random key order; reference mask '
+        'from neurodsp with the documented count. Routing stream (kind route/*, 60 quick / 600 thorough): rhythm in '
+        'bursts of 1-5 periods, the two dictionaries\' counts on either side of the burst length, threshold in {.25,.5,.75,1}, no '
+        'min_burst_duration; the model receives the two RAW counts and resolves them itself. non-trivial = >= 3 rows and '
+        'a label of each value; for the routing stream in addition: another plausible count (the other dictionary\'s '
+        'value, the default 3) would change the reference detector mask or the labels')
 ASSUMPTIONS = ['signals finite']
 
 
 def cases(rng, tier):
     n = 150 if tier == 'quick' else 1500
-    return [pipeline.gen_case(rng, tier, methods=('amp',), kinds=['sparse', 'sparse', 'sparse', 'bursty', 'sum', 'sine', 'zeroed', 'noise'],
-                              fek_prob=0.4) for _ in range(n)]
+    kinds = ['sparse', 'sparse', 'sparse', 'bursty', 'bursty', 'sum', 'sine', 'zeroed', 'noise', 'scaled', 'dc', 'chirp', 'quant']
+    out = [pipeline.gen_case(rng, tier, methods=('amp',), kinds=kinds, fek_prob=0.4, amp_wide=True) for _ in range(n)]
+    out += [pipeline.gen_routing_case(rng, tier) for _ in range(60 if tier == 'quick' else 600)]
+    return out
 
 
 run_impl = pipeline.run_pipe
@@ -25,4 +33,9 @@ def oracle(c, o):
 
 
 def nontrivial(c, o):
-    return pipeline.nontrivial_table(c, o, need_labels=True)
+    if not pipeline.nontrivial_table(c, o, need_labels=True):
+        return False
+    if c.get('routing'):
+        r = o.get('routing') or {}
+        return bool(r.get('det') or r.get('filt'))
+    return True
